@@ -161,7 +161,9 @@ func TestGenerated(t *testing.T) {
 	const test = "Generated"
 	hx.Rule(test, "modules drawn by the harness' own typed module generator (types incl. recursive/packed/opaque/scalable, globals with aggregate and constant-expression initialisers, functions with generated CFGs, phis, all arithmetic/memory/vector/aggregate/cast/call instructions, invoke/landingpad, indirectbr, callbr, switch, attributes, comdats, aliases, attribute groups, generic metadata), rendered by the harness' own text emitter in a drawn textual order: gate = llvm-as-14 accepts; the parser must accept (every construct is representable), parse/print must not panic, LLVM must accept the output and read the same canonical module; shrunk by rapid; non-trivial = >= 3 distinct opcodes or aggregate/metadata content")
 	hx.Check(t, test, hx.N(150, 2500), func(rt *rapid.T) {
-		m, feats := gen.Module(rt, genCfg())
+		cfg := genCfg()
+		cfg.GEPBias = rapid.IntRange(0, 3).Draw(rt, "gepbias") == 0 // a quarter of the cases in the getelementptr-rich profile of C07
+		m, feats := gen.Module(rt, cfg)
 		gen.SparseMetadataIDs(rt, m)
 		noise := gen.DrawNoiseWithAliases(rt)
 		if noise.SplitAttrGroups && genOff["noise-split-attrgroups"] {
